@@ -122,17 +122,27 @@ def r2(ctx, prog):
         fwd = [l for l in f.stmts if l and l['k'] == 'CXXForRangeStmt' and (f.field_of(l['range']) or '').endswith('children_') and any(c['i'] in set(f.walk(l['body'])) for c in cc)]
         ctx.ob('C11.R2', '%s|forward' % f.name, bool(fwd), 'children handled by a forward range-for over children_ (registration order)', where=f.loc(f.body))
         # abort only for required children
-        # abort only for required children: whatever leaves the children loop early (return / break) sits under `... && item.required`
+        # abort only for required children: whatever leaves the children loop early (return / break) lies behind "this child's call failed" and
+        # "item.required" — read off the dominating branch edges, whatever the spelling (&&, nested ifs, continue)
         n_leave = 0
         for r in f.stmts:
             if r and r['k'] in ('ReturnStmt', 'BreakStmt') and fwd and any(r['i'] in set(f.walk(l['body'])) for l in fwd):
                 n_leave += 1
-                g = [c for c, br in q.lexical_guards(f, r['i']) if br == 'then' and 'item.required' in q.subtree_paths(f, c)]
-                okc = False
-                for c in g:
-                    x = f.s(f.strip_casts(c))
-                    okc = okc or (x['k'] == 'BinaryOperator' and x.get('op') == '&&')
-                ctx.ob('C11.R2', '%s|required-only' % f.name, okc, 'a child failure aborts only when item.required', where=f.loc(r['i']))
+                failed = req = False
+                rp_ = q.pt_or_term(f, r)
+                if rp_ is None:
+                    continue
+                for cond, k, b in f.cfg.controlling_branches(rp_):
+                    rel = q.edge_relation(f, cond, k)
+                    if rel is None:
+                        continue
+                    lhs, op, rhs = rel
+                    if any(c['i'] in set(f.walk(cond)) for c in cc) and (op, rhs) == ('==', '0'):
+                        failed = True
+                    if lhs.endswith('item.required') and (op, rhs) == ('!=', '0'):
+                        req = True
+                ctx.ob('C11.R2', '%s|required-only' % f.name, failed and req, 'a child failure aborts only when item.required' if failed and req else
+                       'the children loop is left early without "this child failed and is required" on the way (failed=%s, required=%s)' % (failed, req), where=f.loc(r['i']))
         if n_leave == 0:
             ctx.ob('C11.R2', '%s|required-only' % f.name, False, 'the children loop never aborts: a failing required child is ignored', where=f.loc(f.body))
     for fn, hook in (('stop', 'onStop'), ('cleanup', 'onCleanup')):
@@ -143,6 +153,15 @@ def r2(ctx, prog):
         revl = reverse_child_loops(f, cc)
         rev = bool(loops) and len(revl) == len(loops)
         ctx.ob('C11.R2', '%s|reverse' % f.name, rev, 'children walked from the back (rbegin()..rend() or a down-counting index)', where=f.loc(f.body))
+        # every child is swept: inside the loop the child's %s() is not behind any per-child condition (each child gates itself on its own state_)
+        for c in cc:
+            lp = [l for l in loops if c['i'] in set(f.walk(l['body']))]
+            inner = []
+            for cond, k, b in f.cfg.controlling_branches(q.pt(f, c)):
+                if lp and cond in set(f.walk(lp[0]['body'])):
+                    inner.append(q.expr_text(f, cond))
+            ctx.ob('C11.R2', '%s|sweeps-every-child' % f.name, not inner, 'the sweep calls %s() on every child' % fn if not inner else
+                   'the sweep skips children under %s: a child that is initialised/running but excluded by that condition never gets its %s()' % (inner, fn), where=f.loc(c['i']))
         ctx.ob('C11.R2', '%s|own-last' % f.name, bool(cc) and all(not f.cfg.exists_path(q.pt(f, h), q.pt(f, c)) for c in cc) and all(f.cfg.exists_path(q.pt(f, c), q.pt(f, h)) for c in cc),
                'own hook comes after the children loop', where=f.loc(h['i']))
     c = prog.fn1(M + '::cleanup')
